@@ -13,8 +13,9 @@ import (
 // C01 — JSON encode -> decode round trip preserves every vocabulary property.
 
 // normJSON: the documented normal form of a value tree after a JSON round trip.
-//   instants: UTC whole seconds; unset/empty absent; a one-element list in a single-item position is the
-//   element; a lone language-tagged string comes back untagged; struct values come back as pointers.
+//
+//	instants: UTC whole seconds; unset/empty absent; a one-element list in a single-item position is the
+//	element; a lone language-tagged string comes back untagged; struct values come back as pointers.
 func normJSON(tr interface{}) interface{} {
 	if tr == nil {
 		return nil
